@@ -379,6 +379,11 @@ func (fc *FnCtx) newFrame(fn *ssa.Function, parent *Frame) *Frame {
 				key = "builtin." + bi.Name()
 			} else {
 				key, _ = fr.calleeKey(c)
+				if key == "" {
+					if dn := dynCallName(c.Value); dn != "" {
+						key = "dyn." + dn // calls of a named function value: "atcall yield@1 ..."
+					}
+				}
 			}
 			seq++
 			sites = append(sites, site{c, in.Pos(), key, seq})
